@@ -181,7 +181,7 @@ fn strat_base(target: u8) -> BoxedStrategy<Vec<u8>> {
         ]
         .boxed(),
         3 => {
-            let fmts: Vec<&'static str> = vec!["%Y-%m-%d %H:%M:%S%.f %z", "%A, %d %B %Y %I:%M:%S %p %:z", "%s", "%G-W%V-%u", "%Y %j", "%D %T", "%c", "%5Y%_3m%-d", "%F %T %Q", "%Y %U %w", "%y%m%d%H%M%S%z", "%%%n%t%C%g%e%k%l%P%h%R%b%a%Z"];
+            let fmts: Vec<&'static str> = vec!["%Y-%m-%d %H:%M:%S%.f %z", "%A, %d %B %Y %I:%M:%S %p %:z", "%s", "%G-W%V-%u", "%Y %j", "%D %T", "%c", "%5Y%_3m%-d", "%F %T %Q", "%Y %U %w", "%y%m%d%H%M%S%z", "%%%n%t%C%g%e%k%l%P%h%R%b%a%Z", "%Y-%m-%d%n", "%H:%M:%S%t", "%F%n%T%t%z%n", "%Y %j %n%t"];
             (proptest::sample::select(fmts), gen::ts_ns(), 0usize..6)
                 .prop_map(move |(f, ns, z)| {
                     let tz = jiff::tz::TimeZone::get(zoned_names[z]).unwrap_or(jiff::tz::TimeZone::UTC);
